@@ -102,7 +102,8 @@ Definition bulk_obs (sc : str -> res (option str)) (mode col target : Z) (header
     VList [VInt (match r with Val _ => 0 | Raise EIndexError => 3 | Raise e => err_code e end); vopt vstrs h; VList (map vstrs t)].
 Definition run_bulk (case obs : val) : val :=
   match case with
-  | VList [rs; VStr d; VInt tag; VList [VInt st; VInt pa; VInt am]; rows; VInt col; VInt target; header; VInt mode; tbl] =>
+  | VList (rs :: VStr d :: VInt tag :: VList [VInt st; VInt pa; VInt am] :: rows :: VInt col :: VInt target :: header :: VInt mode :: tbl :: _) =>
+      (* an eleventh element (how the harness staged the call: warm-up on a smaller converter first) is not the model's business *)
       match as_list_of as_strs rows, as_opt as_strs header, as_table tbl with
       | Some rows', Some header', Some t =>
           let m := bulk_obs (tbl_lookup t) mode col target header' rows' in
